@@ -145,11 +145,11 @@ def run_case(case, st=None):
     if not case.get("no_carve"):
         # rdflib computes every aggregate for every group, also for the groups HAVING removes
         carve |= agg_triggers(spec, [(None, None, None, grp) for grp in R.groups_of(spec, ctx)])
-        if R.STATS["str_of_bnode"]: carve.add("T8-STR-of-blank-node")
+        if R.STATS["str_of_bnode"]: carve.add("C08-str-of-bnode")
         if R.STATS["float_arithmetic"]: carve.add("C08-avg-float-promotion")
         grouped_q = bool(spec.get("groupby"))
         if grouped_q and not R.eval_pattern(spec["where"], ctx): carve.add("C08-group-by-on-empty-input")
-        if R.STATS["error_through_function_argument"]: carve.add("T6-error-through-function-argument")
+        if R.STATS["error_through_function_argument"]: carve.add("C08-error-through-function")
     for x in carve: st.setdefault("_known", {})[x] = 1
     if carve:
         return None
